@@ -30,6 +30,7 @@ pub fn dispatch(op: &str, case: &Value) -> Value {
         "openapi" => op_openapi(case),
         "echo" => op_echo(case),
         "request_id_relay" => op_request_id_relay(case),
+        "request_id_many" => op_request_id_many(case),
         "j2oas" => op_j2oas(case),
         "register_params" => op_register_params(case),
         "register_tags" => op_register_tags(case),
@@ -1458,6 +1459,49 @@ fn op_echo(case: &Value) -> Value {
         }).await.unwrap();
         let _ = tokio::time::timeout(std::time::Duration::from_millis(500), server.close()).await;
         json!({"connections": out})
+    })
+}
+
+/// {"op":"request_id_many","n":k}: k requests on keep-alive connections of one server; are all x-request-id values different?
+fn op_request_id_many(case: &Value) -> Value {
+    use std::io::{Read, Write};
+    let n = case["n"].as_u64().unwrap_or(1000) as usize;
+    let rt = tokio::runtime::Builder::new_multi_thread().worker_threads(2).enable_all().build().unwrap();
+    rt.block_on(async move {
+        let log = slog::Logger::root(slog::Discard, slog::o!());
+        let server = dropshot::ServerBuilder::new(echo_api(), (), log).start().expect("server");
+        let addr = server.local_addr();
+        let out = tokio::task::spawn_blocking(move || {
+            let mut ids = std::collections::HashSet::new();
+            let mut dup: Option<String> = None;
+            let mut done = 0usize;
+            let mut s = std::net::TcpStream::connect(addr).unwrap();
+            s.set_nodelay(true).unwrap();
+            s.set_read_timeout(Some(std::time::Duration::from_secs(10))).unwrap();
+            let mut buf: Vec<u8> = vec![];
+            let mut tmp = [0u8; 4096];
+            while done < n {
+                if s.write_all(b"GET /no-such-path HTTP/1.1\r\nHost: replay\r\n\r\n").is_err() { break; }
+                // one response: headers + content-length body
+                loop {
+                    if let Some(pos) = buf.windows(4).position(|w| w == b"\r\n\r\n") {
+                        let head = String::from_utf8_lossy(&buf[..pos]).to_ascii_lowercase();
+                        let cl = head.split("\r\n").find_map(|l| l.strip_prefix("content-length:").map(|v| v.trim().parse::<usize>().unwrap_or(0))).unwrap_or(0);
+                        if buf.len() >= pos + 4 + cl {
+                            let id = head.split("\r\n").find_map(|l| l.strip_prefix("x-request-id:").map(|v| v.trim().to_string())).unwrap_or_default();
+                            if !ids.insert(id.clone()) && dup.is_none() { dup = Some(id); }
+                            buf.drain(..pos + 4 + cl);
+                            break;
+                        }
+                    }
+                    match s.read(&mut tmp) { Ok(0) | Err(_) => return json!({"all_distinct": false, "why": "connection ended", "done": done}), Ok(k) => buf.extend_from_slice(&tmp[..k]) }
+                }
+                done += 1;
+            }
+            json!({"all_distinct": dup.is_none() && ids.len() == n, "requests": done, "distinct": ids.len(), "first_repeat": dup})
+        }).await.unwrap();
+        let _ = tokio::time::timeout(std::time::Duration::from_millis(500), server.close()).await;
+        out
     })
 }
 
